@@ -589,6 +589,7 @@ def run(repo: Repo, R: Report) -> None:
 
     sorts_of_sets_are_total(repo, R, r_ord, sl)
     no_container_rendering(repo, R, sl)
+    no_code_object_text_in_sweep_definition(repo, R)
     declared_scalars_type_fixed(repo, R)
 
     # ------------------------------------------------------------------ D4 same functions, same fields on both paths
@@ -1426,10 +1427,13 @@ def _message_context(n: ast.AST, fn: ast.AST) -> bool:
     return False
 
 
-def _closure_of(repo: Repo, sl: List[Tuple[str, str, ast.AST]]):
+AMBIENT_EXEMPT = ("semantiva/logger/", "semantiva/exceptions/")  # what these return is diagnostic text only
+
+
+def _closure_of(repo: Repo, sl: List[Tuple[str, str, ast.AST]], exempt: Tuple[str, ...] = STATE_EXEMPT):
     roots = [(repo.module(rel), f) for rel, _qn, f in sl]
-    clo = repo.call_graph_closure(roots, stop=lambda m, n: m.rel.startswith(STATE_EXEMPT))
-    return [(m, f) for m, f, _path in sorted(clo.values(), key=lambda t: (t[0].rel, getattr(t[1], "lineno", 0))) if not m.rel.startswith(STATE_EXEMPT)]
+    clo = repo.call_graph_closure(roots, stop=lambda m, n: m.rel.startswith(exempt))
+    return [(m, f) for m, f, _path in sorted(clo.values(), key=lambda t: (t[0].rel, getattr(t[1], "lineno", 0))) if not m.rel.startswith(exempt)]
 
 
 def _plain_name_targets(st: ast.AST) -> Optional[Set[str]]:
@@ -1484,7 +1488,10 @@ def no_ambient_upstream(repo: Repo, R: Report, sl: List[Tuple[str, str, ast.AST]
     factories, the inspection builder) hand it nothing that depends on the process."""
     r = R.rule("C04-D1b-no-ambient-upstream", "no function reachable from the identity slice lets a clock / random / process / object-address / salted-hash value (hash() of text, id(), uuid4, time, os.environ ...) leave it other than inside a log or exception text: what these functions return or attach to the classes they build (names, qualnames, metadata) is hashed into node uuids and ids, so it must be the same in every process", 40)
     in_slice = {id(f) for _rel, _qn, f in sl}
-    for m, f in _closure_of(repo, sl):
+    # (the registry package is exempt from the process-state rule D3a - its tables resolve names to classes - but not from
+    # this one: the canonicaliser passes every node's parameters through the registry's parameter resolution and hashes
+    # what comes back, so an object address / clock / salted hash used there decides node uuids like anywhere else)
+    for m, f in _closure_of(repo, sl, exempt=AMBIENT_EXEMPT):
         if id(f) in in_slice or getattr(f, "name", "") in ("__hash__", "__eq__"):
             continue  # the slice itself: C04-D1 (no ambient call at all)
         qn = qualname_of(f)
@@ -1503,7 +1510,8 @@ def no_ambient_upstream(repo: Repo, R: Report, sl: List[Tuple[str, str, ast.AST]
             R.ok(r, m.rel, qn, f"{qn}: no ambient value leaves the function", "", getattr(f, "lineno", 0))
         else:
             c, esc = bad
-            R.violation(r, m.rel, qn, norm(esc)[:110], f"`{norm(c)[:60]}` is a process-dependent value (hash seed / clock / address / environment) and it leaves {qn} through `{norm(esc)[:70]}`; {qn} is reachable from the identity slice (processor_ref, preprocessor metadata and node parameters are hashed into node uuid, pipeline id, semantic id and config id): a fresh process or another PYTHONHASHSEED gives other identities for the same configuration", getattr(c, "lineno", 0))
+            alias = " - an object address also tells one shared container (a YAML alias `*a` used twice) from two equal ones (the same value spelled out), a difference the configuration's meaning does not have" if call_name(c) == "id" else ""
+            R.violation(r, m.rel, qn, norm(esc)[:110], f"`{norm(c)[:60]}` is a process-dependent value (hash seed / clock / address / environment{alias}) and it leaves {qn} through `{norm(esc)[:70]}`; {qn} is reachable from the identity slice (processor_ref, preprocessor metadata and node parameters are hashed into node uuid, pipeline id, semantic id and config id): a fresh process or another PYTHONHASHSEED gives other identities for the same configuration", getattr(c, "lineno", 0))
 
 
 # -- D2b --------------------------------------------------------------------------------------------------------------
@@ -1731,6 +1739,214 @@ def no_container_rendering(repo: Repo, R: Report, sl: List[Tuple[str, str, ast.A
                     R.violation(r, m.rel, where, label, why, getattr(site, "lineno", 0))
             if not n_bad:
                 R.ok(r, m.rel, qn, f"{qn}: no container rendered as text", "", getattr(f, "lineno", 0))
+
+
+# ---------------------------------------------------------------------------
+# round 11: D1c - no text rendering of an object of the code (a signature default) inside the published sweep definition
+# ---------------------------------------------------------------------------
+CODE_OBJECT_ATTRS = {"default", "annotation", "return_annotation", "__defaults__", "__kwdefaults__", "__annotations__", "__dict__", "__code__", "__wrapped__"}
+TYPE_FIXING_CALLS = {"bool", "int", "float", "len", "isinstance", "hasattr", "callable"}
+
+
+def _renderer_params(repo: Repo, rel: str, qualname: str, depth: int = 0) -> Dict[str, str]:
+    """{parameter: description of the rendering} for the parameters of a package function whose value (or a part of
+    it) is turned into text by repr()/str()/ascii()/format()/f-string inside the function or a package function it
+    hands the value to - outside log / exception texts."""
+    cache = repo.__dict__.setdefault("_c04_renderer_params", {})
+    key = (rel, qualname)
+    if key in cache:
+        return cache[key]
+    cache[key] = {}  # recursion guard
+    out: Dict[str, str] = {}
+    try:
+        flow = flow_of(repo, rel, qualname)
+    except (AnalysisError, RecursionError, KeyError):
+        return out
+    fn = flow.fn
+    mod = repo.module(rel)
+    for f in [n for n in ast.walk(fn) if isinstance(n, FuncNode)]:
+        nested = f is not fn
+        for site, x, _is_repr in _render_sites(f):
+            if _message_context(site, f) or _never_container(x):
+                continue
+            try:
+                names = {n.id for n in ast.walk(x) if isinstance(n, ast.Name)} & flow.params if nested else flow.feeds(x)[0] & flow.params
+            except AnalysisError:
+                continue
+            for pn in sorted(names):
+                out.setdefault(pn, f"`{norm(site)[:40]}` in {qualname}")
+    if depth < 3:
+        for c in calls_in(fn):
+            if call_attr(c) is None:
+                continue
+            try:
+                targets = [(tm, tf) for tm, tf in repo.resolve_call(mod, c) if isinstance(tf, FuncNode) and tm.defs.get(qualname_of(tf)) is tf]
+            except AnalysisError:
+                continue
+            for tm, tf in targets:
+                sub = _renderer_params(repo, tm.rel, qualname_of(tf), depth + 1)
+                if not sub:
+                    continue
+                from .c04 import _bind_args
+
+                for pn2, a in _bind_args(tf, c):
+                    if pn2 not in sub or _message_context(c, fn):
+                        continue
+                    try:
+                        names = flow.feeds(a)[0] & flow.params
+                    except AnalysisError:
+                        continue
+                    for pn in sorted(names):
+                        out.setdefault(pn, sub[pn2])
+    cache[key] = out
+    return out
+
+
+class Carried:
+    """The values a structure carries: from an expression down through the containers the function builds (literals,
+    comprehensions, copies, what is stored / appended into them), through conditional expressions and locals (value
+    origins), into the arguments of the package functions whose result is placed there.  Collects the leaves - reads
+    of something the function did not build (a member of the class it is handed, a parameter, an attribute, the result
+    of an unknown call) - each with the text rendering it passed on the way, if any."""
+
+    def __init__(self, repo: Repo, rel: str, flow: Flow):
+        self.repo, self.rel, self.flow = repo, rel, flow
+        self.mod = repo.module(rel)
+        self.seen: Set[Tuple[int, Tuple[str, ...], bool]] = set()
+        self.leaves: List[Tuple[ast.AST, Tuple[str, ...], Optional[str]]] = []
+
+    def walk(self, e: Optional[ast.AST], path: Tuple[str, ...] = (), via: Optional[str] = None) -> None:
+        from .c04 import _bind_args, _fresh_container
+
+        if e is None or len(path) > 6:
+            return
+        key = (id(e), path, via is not None)
+        if key in self.seen:
+            return
+        self.seen.add(key)
+        try:
+            leaves = self.flow.origins(e, path)
+        except (AnalysisError, RecursionError):
+            return
+        for root, rest in sorted(leaves, key=lambda l: (getattr(l[0], "lineno", 0), getattr(l[0], "col_offset", 0), l[1])):
+            if isinstance(root, ast.Constant):
+                continue
+            if rest:
+                self.leaves.append((root, rest, via))
+                continue
+            if _fresh_container(root) or (isinstance(root, ast.Call) and isinstance(root.func, ast.Name) and root.func.id in SEQ_REORDER):
+                self.walk(e, path + (ANY,), via)
+                for dc in [n for n in [root] if isinstance(n, ast.DictComp)]:
+                    self.walk(dc.key, (), via)
+                continue
+            if isinstance(root, ast.Call):
+                nm = call_attr(root)
+                if isinstance(root.func, ast.Name) and nm in TYPE_FIXING_CALLS:
+                    continue
+                if isinstance(root.func, ast.Name) and nm == "getattr":
+                    self.leaves.append((root, (), via))
+                    continue
+                if isinstance(root.func, ast.Name) and nm in ("str", "repr", "ascii", "format") and root.args:
+                    self.walk(root.args[0], (), via or f"`{norm(root)[:40]}`")
+                    continue
+                try:
+                    targets = [(tm, tf) for tm, tf in self.repo.resolve_call(self.mod, root) if isinstance(tf, FuncNode) and tm.defs.get(qualname_of(tf)) is tf]
+                except AnalysisError:
+                    targets = []
+                if not targets:
+                    self.leaves.append((root, (), via))
+                    continue
+                for tm, tf in targets:
+                    rp = _renderer_params(self.repo, tm.rel, qualname_of(tf))
+                    for pn, a in _bind_args(tf, root):
+                        self.walk(a, (), via or (f"{rp[pn]} (reached through `{norm(root)[:40]}`)" if pn in rp else None))
+                continue
+            if isinstance(root, ast.JoinedStr):
+                for fv in root.values:
+                    if isinstance(fv, ast.FormattedValue):
+                        self.walk(fv.value, (), via or f"`{norm(root)[:40]}`")
+                continue
+            if isinstance(root, ast.Attribute):
+                if root.attr not in DUNDER_TEXT:
+                    self.leaves.append((root, (), via))
+                continue
+            if isinstance(root, (ast.Name, ast.Lambda)):
+                self.leaves.append((root, (), via))
+                continue
+            for ch in ast.iter_child_nodes(root):
+                if isinstance(ch, ast.expr):
+                    self.walk(ch, (), via)
+
+
+def _code_object_read(flow: Flow, root: ast.AST) -> Optional[str]:
+    """*root* reads an object of the program rather than of the configuration: the default / annotation of a parameter
+    of a Python signature (`inspect.signature(..).parameters[..].default`), a function's __defaults__ / __dict__ ..."""
+    if not (isinstance(root, ast.Attribute) and root.attr in CODE_OBJECT_ATTRS):
+        return None
+    if root.attr.startswith("__"):
+        return f"`{norm(root)[:50]}`"
+    try:
+        _names, calls = flow.feeds(root.value)
+    except AnalysisError:
+        return None
+    src = next((c for c in calls if (call_name(c) or "").startswith("inspect.") or call_attr(c) in ("signature", "getfullargspec", "get_type_hints")), None)
+    return f"`{norm(root)[:50]}` (of `{norm(src)[:50]}`)" if src is not None else None
+
+
+def no_code_object_text_in_sweep_definition(repo: Repo, R: Report) -> None:
+    """C04-D1c: the published sweep definition holds no text rendering of an arbitrary Python object."""
+    r = R.rule("C04-D1c-no-code-object-text-in-sweep-definition", "nothing inside the mapping the sweep-definition builder returns (hashed into node semantic id, config id and semantic id) is the repr()/str() text - directly or through a JSON-safety helper that falls back to repr - of an object of the program: the default / annotation of a parameter of the wrapped element's Python signature, __defaults__, __dict__ (followed through the attributes the class factory binds on the generated class).  Such an object is arbitrary (a set, a sentinel `object()`, a callable, an instance without __repr__): its text shows the hash seed or a memory address, so the ids of the same configuration differ between processes; only configuration values and names written down in the program may be rendered", 3)
+    builder0, factories0 = sweep_definition_anchors(repo)
+    b_qn = qualname_of(builder0)
+    bflow = flow_of(repo, SWEEP, b_qn)
+    bparams = [p.arg for p in _params_list(bflow.fn)]
+    recv = {"cls", "self"} | ({bparams[0]} if bparams else set())
+    rets = [x for x in walk_no_nested(bflow.fn) if isinstance(x, ast.Return) and x.value is not None]
+    if not rets:
+        raise AnalysisError(f"{b_qn}: the sweep-definition builder returns nothing")
+    w = Carried(repo, SWEEP, bflow)
+    for ret in rets:
+        w.walk(ret.value)
+    n_members = 0
+    for root, rest, via in w.leaves:
+        member = None
+        if isinstance(root, ast.Call) and call_attr(root) == "getattr" and len(root.args) >= 2 and isinstance(root.args[0], ast.Name) and root.args[0].id in recv and isinstance(root.args[1], ast.Constant):
+            member = str(root.args[1].value)
+        elif isinstance(root, ast.Attribute) and isinstance(root.value, ast.Name) and root.value.id in recv:
+            member = root.attr
+        direct = _code_object_read(bflow, root)
+        if direct is not None and via is not None:
+            R.violation(r, SWEEP, b_qn, norm(stmt_of(root))[:90], f"{direct} is an object of the program and its text ({via}) is part of the published sweep definition: the text of a set shows the hash seed, that of a plain object its address - node semantic id, config id and semantic id of the same configuration differ between processes", getattr(root, "lineno", 0))
+            continue
+        if member is None:
+            continue
+        n_members += 1
+        bad: List[Tuple[str, ast.AST, str]] = []
+        for f0 in factories0:
+            f_qn = qualname_of(f0)
+            fflow = flow_of(repo, SWEEP, f_qn)
+            for c in [c for c in ast.walk(fflow.fn) if isinstance(c, ast.ClassDef)]:
+                for st in c.body:
+                    tg = st.targets if isinstance(st, ast.Assign) else [st.target] if isinstance(st, ast.AnnAssign) and st.value is not None else []
+                    if not any(isinstance(x, ast.Name) and x.id == member for x in tg):
+                        continue
+                    fw = Carried(repo, SWEEP, fflow)
+                    fw.walk(st.value, rest, via)
+                    for root2, _rest2, via2 in fw.leaves:
+                        what = _code_object_read(fflow, root2)
+                        if what is not None and via2 is not None:
+                            bad.append((f_qn, root2, f"{what}, bound to `{member}` of the generated class (`{norm(stmt_of(root2))[:60]}`), is an object of the program - any default the author of the wrapped element chose: a set, a sentinel, a callable - and the builder publishes its text ({via2}) in the sweep definition: the text of a set shows the hash seed, that of a plain object its address, so node semantic id, config id and semantic id of the same configuration differ between processes / PYTHONHASHSEED values"))
+        label = f"{b_qn}: `{norm(root)[:50]}`" + (f" rendered by {via[:60]}" if via else " (not rendered as text)")
+        if not bad:
+            R.ok(r, SWEEP, b_qn, label)
+        seen_msgs: Set[str] = set()
+        for f_qn, root2, msg in bad:
+            if msg in seen_msgs:
+                continue
+            seen_msgs.add(msg)
+            R.violation(r, SWEEP, b_qn, norm(stmt_of(root))[:90], msg, getattr(root, "lineno", 0))
+    if not n_members:
+        raise AnalysisError(f"{b_qn}: the published sweep definition reads no member of the generated class (anchor of C04-D1c)")
 
 
 # -- D2 total orders --------------------------------------------------------------------------------------------------
